@@ -33,7 +33,7 @@ Section V.
     | OLetStarted => {| e_v := v; e_started := v_st v |}
     | OIf c t f =>
         (fix vl (l : list cop) (e : venv) : venv := match l with [] => e | o :: l' => vl l' (vop o e) end)
-          (if match c with CStarted => e_started e | CNeedsInit => ctl_needs_init (v_st v) (v_hk v) end then t else f) e
+          (if match c with CStarted => e_started e | CNeedsInit => ctl_needs_init (v_st v) (v_hk v) | CNoProtocolFeatures => true end then t else f) e
     | OForRings body =>
         (* the race model follows one ring *)
         (fix vl (l : list cop) (e : venv) : venv := match l with [] => e | o :: l' => vl l' (vop o e) end) body e
